@@ -14,7 +14,7 @@ import random
 
 # Typing imports
 from typing import Dict, Iterator, List, NamedTuple, Optional, Tuple, Union, overload
-from urllib.parse import parse_qsl, urlparse
+from urllib.parse import parse_qsl, urlsplit
 
 # Pycryptodome imports
 try:
@@ -236,7 +236,8 @@ def parse_raw_http(data: bytes) -> Union[HttpRequest, HttpResponse]:
 
     # sanitize uri bytes for `urlparse()` to avoid possible decode errors
     uri = uri.decode("ascii", errors="ignore").encode()
-    result = urlparse(uri)
+    # (urlsplit instead of urlparse, so that a `;` in the last path segment stays part of the path)
+    result = urlsplit(uri)
     uri = result.path
     params = dict(parse_qsl(result.query))
     return HttpRequest(method=method, body=body, headers=headers, uri=uri, params=params)
